@@ -327,6 +327,11 @@ func c05Case(c *core.Ctx, idx int) {
 		c05PtrPtr(c, idx)
 		return
 	}
+	if idx%41 == 13 {
+		cfg := instCfgs()[idx%4]
+		countedContainers(c, idx, cfg, instNew(cfg))
+		return
+	}
 	tc := genType(c, idx, nil)
 	rec := c.Rec
 	if _, err := tc.p.CodecForType(tc.typ); err != nil {
